@@ -60,6 +60,85 @@ theorem required_eq_select : ∀ (segs : List ESeg) (r : Res),
                 rw [this]
                 exact ifAny_bind _ _ _ (fun e he => by simp [he])
               · simp [hd]
-        · simp only [required, select, stepRes]
+        · simp only [required, stepRes]
           rw [stepSeg_children mt dsc s rest n c hm ht, ihf]
           cases s <;> simp_all [select]
+
+/-- `Processor.get_nodes(path, mustexist=True)` delivers `Spec.select` of the path on the document
+(nothing for a null document), and raises "unmatched" after an empty selection. -/
+theorem getRequired_eq_select (segs : List ESeg) (d : Node) :
+    getRequired mt dsc segs d =
+      if d.isNull then Gen.nil else
+      Gen.append (select mt dsc segs (.real (d, Ctx.root)))
+        (if (select mt dsc segs (.real (d, Ctx.root))).1.isEmpty then Gen.fail (.ypath .unmatched) else Gen.nil) := by
+  simp [getRequired, required_eq_select]
+
+/-- `Processor.exists(path)` is true exactly when the specification selects at least one node
+(and raises exactly when the selection raises). -/
+theorem exists_iff_select_nonempty (segs : List ESeg) (d : Node) :
+    existsQ mt dsc segs d =
+      if d.isNull then .ok false else
+      match (select mt dsc segs (.real (d, Ctx.root))).collapse with
+      | .ok l => .ok (!l.isEmpty)
+      | .error e => .error e := by
+  simp only [existsQ, required_eq_select]
+  split <;> rfl
+
+/-- "A path that already exists": along the evaluation no creating segment (key, index, slice,
+anchor) comes up empty, and no null node is selected before the last segment.  Decidable. -/
+def allExist : List ESeg → Res → Bool
+  | [], _ => true
+  | s :: rest, r =>
+    let g := stepRes mt dsc s rest r
+    !(g.1.isEmpty && g.2.isNone && s.creates)
+      && g.1.all (fun r' => (rest.isEmpty || !r'.isNullNode) && allExist rest r')
+
+/-- An optional-match query on a path that already exists answers like the required-match query. -/
+theorem optional_eq_required_of_exists : ∀ (segs : List ESeg) (r : Res),
+    allExist mt dsc segs r = true → Eval.optional mt dsc segs r = required mt dsc segs r := by
+  intro segs
+  induction segs with
+  | nil => intro r _; rfl
+  | cons s rest ih =>
+    intro r h
+    simp only [allExist, Bool.and_eq_true, List.all_eq_true, Bool.or_eq_true, Bool.not_eq_true',
+      Bool.not_eq_eq_eq_not, Bool.not_true] at h
+    obtain ⟨h1, h2⟩ := h
+    simp only [Eval.optional, required]
+    have hb : (stepRes mt dsc s rest r).bind
+          (fun r' => if r'.isNullNode = true then Gen.one r' else Eval.optional mt dsc rest r')
+        = (stepRes mt dsc s rest r).bind (required mt dsc rest) := by
+      apply bind_congr_mem
+      intro x hx
+      obtain ⟨hn, ha⟩ := h2 x hx
+      rw [ih x ha]
+      by_cases hx0 : x.isNullNode = true
+      · simp only [hx0, if_true]
+        cases hn with
+        | inl he =>
+          cases rest with
+          | nil => rfl
+          | cons _ _ => simp at he
+        | inr hf => simp [hx0] at hf
+      · simp [hx0]
+    rw [hb]
+    by_cases hc : ((stepRes mt dsc s rest r).1.isEmpty && s.creates) = true
+    · simp only [hc, if_true]
+      have hne : (stepRes mt dsc s rest r).2 ≠ none := by
+        intro hnone
+        simp only [Bool.and_eq_true] at hc
+        simp [hc.1, hc.2, hnone] at h1
+      obtain ⟨e, he⟩ := Option.ne_none_iff_exists'.mp hne
+      have hemp : (stepRes mt dsc s rest r).1 = [] := by
+        simp only [Bool.and_eq_true, List.isEmpty_iff] at hc
+        exact hc.1
+      have : stepRes mt dsc s rest r = ([], some e) := by
+        rw [← hemp, ← he]
+      rw [this]
+      simp
+      rfl
+    · simp [hc]
+
+example : allExist (fun _ _ _ => .ok true) Desc.none [.key ['a'], .index 0]
+    (.real (.map none [(.str ['a'], .seq none [.scalar none (.int 1)])], Ctx.root)) = true := by
+  decide +kernel
